@@ -287,3 +287,31 @@ def scanned_value_flow(P, fn, max_paths=6000):
                 s = sites.setdefault(key, [0, 0])
                 s[0 if c in consumed else 1] += 1
     return [(k[0], k[1], v[0], v[1]) for k, v in sorted(sites.items(), key=lambda kv: (kv[0][1] or 0, kv[0][0]))]
+
+
+def own_value_rejections(P, fn, max_paths=6000):
+    """{(error constant, scanner name)}: Err(const) returns of `fn` (not propagated from a callee) that are decided by a comparison on a
+    value a format::scan function produced. Range decisions on scanned values belong to the Parsed setters; a reader that adds its own
+    narrows the accepted language."""
+    from sym import Sym, walk_terms, pp
+    from rules import result_variant
+    out = set()
+    for p in Sym(P, fn).paths(max_paths=max_paths):
+        if p.end[0] != "return" or result_variant(p.ret)[0] != "Err":
+            continue
+        r = p.ret
+        if not (r[0] == "agg" and r[4] and r[4][0][0] in ("const", "named")):
+            continue
+        name = r[4][0][1].split("::")[-1] if r[4][0][0] == "named" else pp(r[4][0])
+        last = None
+        for c in p.conds:
+            if c[0][0] == "switch":
+                last = c
+        if last is None:
+            continue
+        for t in walk_terms(last[1]):
+            if isinstance(t, tuple) and t and t[0] == "field" and t[2] == 1:
+                k = _core_of(t[1])
+                if isinstance(k, tuple) and k and k[0] == "call" and isinstance(k[1], str) and k[1].startswith("format::scan::"):
+                    out.add((name, k[1].split("::")[-1]))
+    return out
